@@ -298,6 +298,8 @@ package parser
 //@ func parseStringLiteral
 //@   tags C16 C04 C03
 //@   requires delimited: len(s) >= 2
+//@   loop 1
+//@     invariant len(v) >= 1
 //@   ensures node: result1 == nil && result0 != nil
 
 //@ func Parse
@@ -411,3 +413,5 @@ package parser
 //@ func parseQuotedIdentifier
 //@   tags C16 C04 C03
 //@   requires delimited: len(s) >= 2
+//@   loop 1
+//@     invariant len(v) >= 1
